@@ -64,6 +64,7 @@ ST_REM = S("rem", n={"quick": 4000, "thorough": 30000}, args_tier={"thorough": [
 ST_CONVI = S("convi", n={"quick": 250, "thorough": 1500})
 ST_XTYPE = S("xtype", chunks=XPAIR, n={"quick": 600, "thorough": 3000})
 ST_FLT = S("flt", n={"quick": 3000, "thorough": 20000})
+ST_FROMTO = S("fromto", chunks={"quick": [None], "thorough": [None]}, n={"quick": 40, "thorough": 600}, shards={"quick": 1, "thorough": 1})
 ST_CODEC = S("codec", n={"quick": 1500, "thorough": 8000})
 ST_FMT = S("fmt", n={"quick": 500, "thorough": 4000}, args_tier={"thorough": ["--exhaustive", "1"]})
 ST_WRAP = S("wrap", n={"quick": 400, "thorough": 3000})
@@ -94,13 +95,17 @@ PLANS = {
                      "only in bits the lhs cannot hold, or lying in (MAX, 2*MAX] / [2*MIN, MIN) of the lhs; a coverage cell is "
                      "(type pair, class(lhs), ordering outcome, rhs in-range/overflowing/lost-bits class); non-trivial = no operand 0",
                 need_ops=["cmp:i8", "cmp:u128", "cmpff", "cmpsame", "cmpf32", "cmpf64"], nlay={"quick": 106 + 600, "thorough": 506 + 4000}),
-    "C04": dict(module="conv", streams=[ST_CONVI, ST_XTYPE], profiles=["release", "checked"],
+    "C04": dict(module="conv", streams=[ST_CONVI, ST_XTYPE, ST_FROMTO], profiles=["release", "checked"], probes=True,
                 rule="one event = one source value converted through from_num/to_num and their checked_/saturating_/wrapping_/"
                      "overflowing_ forms in both spellings: integer<->fixed for all 12 primitive integer types on every layout, "
                      "bool->fixed, and fixed->fixed over 100 family pairs x 6 (quick) / 40 (thorough) Frac combinations; sources sit at "
                      "the destination's range ends +-2 ulp, at 2x the range, at one/half destination ulp, or are structured patterns; "
+                     "From / LossyFrom (fixed->fixed, integer<->fixed, fixed->float) on 635 generated type pairs at the EDGE of the legal "
+                     "region (equal integer bits, equal Frac, unsigned->signed needing exactly one more bit); 25 forbidden-conversion "
+                     "probes one step OUTSIDE the region are compiled on every run: each must be refused by the compiler, one that "
+                     "compiles is executed and its events are judged like any other; "
                      "a coverage cell is (type pair, class(source), fits/over+/over- [+lost bits]); non-trivial = source != 0",
-                need_ops=["fi:i8", "fi:u128", "fb", "ff"], nlay={"quick": 106 + 600, "thorough": 506 + 4000}),
+                need_ops=["fi:i8", "fi:u128", "fb", "ff", "fx:from", "fx:lossy", "fxf"], nlay={"quick": 106 + 599 + 389, "thorough": 506 + 3900 + 389}),
     "C05": dict(module="fltm", streams=[ST_FLT], profiles=["release", "checked"],
                 rule="one event = one (layout, fixed value, float bit pattern) with from_num and its four overflow forms, to_num::<f32|f64> "
                      "and its forms, LossyFrom; floats are exact grid points, exact ties between grid points and the adjacent floats, range "
@@ -206,7 +211,7 @@ def _floor(plan, tier, nlay_expected):
 
 
 def stream_bins(st, tier):
-    return ["%s_%s" % (st["body"], c) for c in st["chunks"][tier]]
+    return [("%s_%s" % (st["body"], c)) if c else st["body"] for c in st["chunks"][tier]]
 
 
 def plan(prop, tier, seed):
@@ -233,6 +238,8 @@ def plan(prop, tier, seed):
                                                 "--shard", "%d/%d" % (s, shards)] + st["args"] + st["args_tier"].get(tier, []),
                                            mon=[PY, MON, P.get("module_by_body", {}).get(st["body"], P["module"]), prop, prof] + P.get("mon_args", []),
                                            timeout=1800 if tier == "quick" else 4 * 3600))
+            if P.get("probes"):
+                js.append(dict(kind="probe", body="probes", profile="release", mon=[PY, MON, P["module"], prop, "release"], timeout=1800))
             return js
         nlay = P.get("nlay", {"quick": 106, "thorough": 506})[tier]
         out = dict(P)
